@@ -90,6 +90,22 @@ def replay_equiv(case, cx):
     case = case if isinstance(case, dict) else json.loads(case)
     cfg = LM.default_cfg(**{k: v for k, v in case.items() if k != "direction"})
     vals = cx["vals"][0]
+    if cx["direction"] == "code_implies_spec":
+        # the constraint system admits an allocation outside the specification; whether CBC's optimum is such an allocation depends on the instance:
+        # the solver's instance first, then generic instances of the same configuration
+        rng = random.Random(4242)
+        tried = []
+        for v in [vals] + [_concrete_vals(cfg, rng) for _ in range(4)]:
+            try:
+                pf, X = Q.run_real(cfg, v, cx["growth"])
+            except AssertionError as e:
+                tried.append("real optimiser failed: %s" % str(e)[:60])
+                continue
+            bad = Q.float_audit(cfg, v, cx["growth"], X) + [b for b in Q.spec_violations(cfg, v, cx["growth"], X) if not b.startswith("UNDECIDED")]
+            if bad:
+                return dict(reproduced=True, what="CBC's allocation violates: %s" % "; ".join(bad[:3]), inputs=dict(case=case, supplies=v), observed=dict(reported=pf), key="equiv/code=>spec/" + _kind(cx["info"]))
+            tried.append("CBC's optimum (%r) satisfies the specification" % pf)
+        return dict(reproduced=False, what="%s is not implied by the code's constraints, but CBC's optimum stayed inside the specification on %d instances: %s" % (cx["info"], len(tried), tried))
     try:
         pf, X = Q.run_real(cfg, vals, cx["growth"])
     except AssertionError as e:
